@@ -36,9 +36,11 @@ func init() {
 				Run: func(c *core.Ctx, idx int) { rel.CheckUniverse(c, rel.UniverseByIndex(idx), "C08") }},
 			{Name: "copies-and-mutations", Count: core.FixedCount(40000, 800000), Run: func(c *core.Ctx, idx int) { rel.RunCopiesAndMutations(c) }},
 			{Name: "cyclic-battery", Count: core.FixedCount(rel.CyclicCases(), rel.CyclicCases()), Run: rel.RunCyclic},
+			{Name: "deep-legal-nests", Count: core.FixedCount(rel.DeepCases(), rel.DeepCases()), Run: rel.RunDeep, Exhaustive: true},
 		},
 		Repro: map[string]func() (bool, string){"c08.nan-compare": rel.ReproNaNRank, "c08.depth-stuck": rel.ReproDepthStuck,
 			"c08.map-behind-interface": func() (bool, string) { return rel.ReproMapBehindInterface("compare") },
-			"c08.self-association":     rel.ReproSelfAssociation},
+			"c08.self-association":     rel.ReproSelfAssociation,
+			"c08.deep-catalog":         rel.ReproDeepCatalog},
 	})
 }
